@@ -98,7 +98,7 @@ theorem c03_JTr (d : SVD n m K) (X : Matrix (Fin n) (Fin s) K) (r : Fin n → K)
 column-after-column layout as the residual vector (C02). -/
 theorem c03_layout {K : Type} (blocks : Fin p → Mat n s K) (k : Fin p) (q : Fin (n * s)) :
     (assembleJac blocks).get q k = (blocks k).vec[q] := by
-  simp [assembleJac]
+  simp [assembleJac, Mat.vec]
 
 section seq
 variable {K E : Type} {n m p s : Nat} {U : UserModel n m p K E}
